@@ -190,7 +190,7 @@ class C08(Suite):
         pat = rng.choice([0, 1, 1, 2, 2, 3, 3, 5]) if rng.random() > 0.05 else 4
         pv = PVARS[pat]
         case = {"graph": triples, "pattern": pat, "group": None, "aggs": [], "having": None, "order": [],
-                "proj": None, "distinct": rng.random() < 0.3, "slice": None}
+                "proj": None, "distinct": rng.random() < 0.3, "slice": None, "galias": None}
         grouped = rng.random() < 0.55
         if grouped:
             r = rng.random()
@@ -200,13 +200,26 @@ class C08(Suite):
             for j in range(rng.choice([1, 1, 2, 3])):
                 aggs.append([10 + j, self.gen_agg(rng, pv)])
             case["aggs"] = aggs
-            if rng.random() < 0.3:
-                ha = self.gen_agg(rng, pv, kinds=["count", "count", "sum", "avg"])
-                case["having"] = [ha, rng.choice(list(OPS)), rng.choice([-1, 0, 1, 1, 2, 2, 3, 4, 6])]
+            # GROUP BY (?vS AS ?v20): the alias is a grouping key like any other
+            if gv and rng.random() < 0.2:
+                j = rng.randrange(len(gv))
+                case["galias"] = [gv[j], 20]
+                gv[j] = 20
+            if rng.random() < 0.38:
+                if gv and rng.random() < 0.5:
+                    case["having"] = {"key": rng.choice(gv), "ne": rng.random() < 0.6,
+                                      "iri": rng.choice([E + "a", E + "a", E + "b", E + "c", E + "p"])}
+                else:
+                    ha = self.gen_agg(rng, pv, kinds=["count", "count", "sum", "avg"])
+                    case["having"] = {"agg": ha, "op": rng.choice(list(OPS)),
+                                      "n": rng.choice([-1, 0, 1, 1, 2, 2, 3, 4, 6])}
             allv = gv + [a[0] for a in aggs]
             proj = [v for v in allv if rng.random() < 0.8]
             if not proj:
                 proj = [rng.choice(allv)]
+            h = case["having"]
+            if h and "key" in h and h["key"] in proj and len(proj) > 1 and rng.random() < 0.5:
+                proj = [v for v in proj if v != h["key"]]   # HAVING on a key that is not projected
             case["proj"] = proj
             keyvars = proj
         else:
@@ -239,9 +252,12 @@ class C08(Suite):
         return a
 
     # ------------------------------------------------------------ query text
+    def pattern_vars(self, case):
+        return sorted(PVARS[case["pattern"]]) + ([case["galias"][1]] if case.get("galias") else [])
+
     def canon_order(self, case):
         if case["group"] is None:
-            return sorted(PVARS[case["pattern"]])
+            return self.pattern_vars(case)
         return list(case["group"]) + [a[0] for a in case["aggs"]]
 
     def select_items(self, case, vars_):
@@ -250,16 +266,24 @@ class C08(Suite):
 
     def tail(self, case):
         t = ""
+        ga = case.get("galias")
         if case["group"]:
-            t += " GROUP BY " + " ".join(f"?v{v}" for v in case["group"])
-        if case["having"] is not None:
-            ha, op, n = case["having"]
-            t += f" HAVING ({agg_text(ha)} {op} {n})"
+            t += " GROUP BY " + " ".join(f"(?v{ga[0]} AS ?v{v})" if ga and v == ga[1] else f"?v{v}"
+                                         for v in case["group"])
+        h = case["having"]
+        if h is not None:
+            if "key" in h:
+                t += f" HAVING (?v{h['key']} {'!=' if h['ne'] else '='} <{h['iri']}>)"
+            else:
+                t += f" HAVING ({agg_text(h['agg'])} {h['op']} {h['n']})"
         return t
 
     def queries(self, case):
         where = "WHERE { " + PATTERNS[case["pattern"]] + " }"
-        base = "SELECT * " + where
+        ga = case.get("galias")
+        # GROUP BY (e AS ?v) is Extend(P, ?v, e) followed by GROUP BY ?v (SPARQL 18.2.4.1): the input
+        # sequence of such a case is the solution sequence of P extended by BIND
+        base = "SELECT * WHERE { " + PATTERNS[case["pattern"]] + (f" BIND(?v{ga[0]} AS ?v{ga[1]})" if ga else "") + " }"
         order = self.canon_order(case)
         core = None
         if case["group"] is not None:
@@ -303,13 +327,13 @@ class C08(Suite):
         return out
 
     def input_of(self, case):
-        key = json.dumps([case["graph"], case["pattern"]], sort_keys=True)
+        key = json.dumps([case["graph"], case["pattern"], case.get("galias")], sort_keys=True)
         if key not in self._memo:
             if len(self._memo) > 5000:
                 self._memo.clear()
             g = self.graph_of(case)
             base = self.queries(case)[0]
-            self._memo[key] = self.rows_of(g.query(base), sorted(PVARS[case["pattern"]]))
+            self._memo[key] = self.rows_of(g.query(base), self.pattern_vars(case))
         return self._memo[key]
 
     def run_impl(self, case):
@@ -317,8 +341,8 @@ class C08(Suite):
         base, core, full, final = self.queries(case)
         order = self.canon_order(case)
         try:
-            inp = self.rows_of(g.query(base), sorted(PVARS[case["pattern"]]))
-            key = json.dumps([case["graph"], case["pattern"]], sort_keys=True)
+            inp = self.rows_of(g.query(base), self.pattern_vars(case))
+            key = json.dumps([case["graph"], case["pattern"], case.get("galias")], sort_keys=True)
             self._memo[key] = inp
             a = inp if core is None else self.rows_of(g.query(core), order)
             f = self.rows_of(g.query(full), order)
@@ -335,7 +359,8 @@ class C08(Suite):
         inp = self.input_of(case)
         grp = copt(case["group"], lambda g: clist(cN(v) for v in g))
         aggs = clist(ctuple(cN(v), c_agg(a)) for v, a in case["aggs"])
-        hv = copt(case["having"], lambda h: ctuple(c_agg(h[0]), OPS[h[1]], cZ(h[2])))
+        hv = copt(case["having"], lambda h: (f"(HKey {cN(h['key'])} {cbool(h['ne'])} {cstr(h['iri'])})" if "key" in h
+                                             else f"(HAgg {c_agg(h['agg'])} {OPS[h['op']]} {cZ(h['n'])})"))
         order = clist(ctuple(cbool(d), cN(v)) for d, v in case["order"])
         proj = copt(case["proj"], lambda p: clist(cN(v) for v in p))
         sl = copt(case["slice"], lambda s: ctuple(cnat(s[0]), copt(s[1], cnat)))
@@ -357,6 +382,10 @@ class C08(Suite):
              "implicit_group": int(case["group"] == []),
              "group_keys_2": int(bool(case["group"]) and len(case["group"]) == 2),
              "having": int(case["having"] is not None),
+             "having_key": int(bool(case["having"]) and "key" in case["having"]),
+             "having_key_unprojected": int(bool(case["having"]) and "key" in case["having"]
+                                           and case["having"]["key"] not in (case["proj"] or [])),
+             "group_by_alias": int(bool(case.get("galias"))),
              "order_keys": len(case["order"]), "order_desc": sum(1 for d, _ in case["order"] if d),
              "distinct": int(case["distinct"]), "slice": int(case["slice"] is not None),
              "project": int(case["proj"] is not None and case["group"] is None),
@@ -440,4 +469,112 @@ class C08(Suite):
                                    "order": [[d1, v1], [d2, v2]], "proj": None, "distinct": False, "slice": sl}
 
 
-SUITES = [C08()]
+# ---------------------------------------------------------------------------------------------
+# Numeric type promotion in SUM / AVG with xsd:float and xsd:double members (conformance level
+# for the values: floating point results are compared with a tolerance; the datatype is judged
+# against the XSD lattice, and the model computes it from the REFLECTED _typePromotionMap).
+from fractions import Fraction  # noqa: E402
+
+DT_CODE = {str(XSD.integer): 0, str(XSD.decimal): 1, str(XSD.float): 2, str(XSD.double): 3}
+PVALUES = {
+    0: ["0", "1", "2", "-3", "7"],
+    1: ["0.25", "1.5", "-2.5", "2.0", "0.1"],
+    2: ["0.5", "1.5", "-0.25", "2.0", "3.0"],
+    3: ["0.5", "1.5", "-0.25", "4.0", "0.1"],
+}
+
+
+def p_literal_text(dt, lex):
+    # typed form throughout: the shorthand of a negative decimal (`-2.5`) makes rdflib's SPARQL parser
+    # raise TypeError (Literal.__neg__ on a Decimal) - a parser matter, not C08
+    return "'%s'^^<%s>" % (lex, [XSD.integer, XSD.decimal, XSD.float, XSD.double][dt])
+
+
+def p_exact(dt, lex):
+    if dt in (0, 1):
+        return Fraction(Decimal(lex))
+    return Fraction(float(lex))
+
+
+class C08Promo(Suite):
+    name = "promotion"
+    imports = "From RV Require Import Modifiers.PromoModel."
+    case_ty = "pcase"
+    obs_ty = "pobs"
+    model = "pmodel"
+    oeq = "pobs_eqb"
+    spec = "pspec"
+    kf = "pkf"
+    kf_ids = {1: "F-C08g"}
+    corr = "aggregates.Sum/Average (datatype bookkeeping, type_safe_numbers), datatypes.type_promotion/_typePromotionMap"
+    quick_n = 300
+    thorough_n = 6000
+    timeout_s = 20.0
+
+    # case = {"avg": bool, "vals": [[dtcode, lexical]...]}  (the order is the order the values are met in)
+    def gen(self, rng, i):
+        n = rng.choice([1, 2, 2, 3, 3, 4, 5])  # (an empty VALUES block raises in rdflib: not a C08 matter)
+        prof = rng.random()
+        dts = [0, 1] if prof < 0.15 else [1, 2] if prof < 0.4 else [0, 1, 2] if prof < 0.6 else \
+            [1, 3] if prof < 0.7 else [0, 1, 2, 3]
+        vals = []
+        for _ in range(n):
+            dt = rng.choice(dts)
+            vals.append([dt, rng.choice(PVALUES[dt])])
+        return {"avg": rng.random() < 0.4, "vals": vals}
+
+    def run_impl(self, case):
+        g = Graph()
+        fn = "AVG" if case["avg"] else "SUM"
+        body = " ".join(p_literal_text(dt, lex) for dt, lex in case["vals"])
+        q = "SELECT (%s(?o) AS ?r) WHERE { VALUES ?o { %s } }" % (fn, body)
+        try:
+            rows = list(g.query(q))
+            if len(rows) != 1 or rows[0][0] is None:
+                return {"err": "rows"}
+            lit = rows[0][0]
+            dt = DT_CODE.get(str.__str__(lit.datatype) if lit.datatype is not None else "", 99)
+            lex = str.__str__(lit)
+            v = Fraction(Decimal(lex)) if dt in (0, 1) else Fraction(float(lex))
+        except Exception as e:  # noqa: BLE001
+            return {"err": type(e).__name__}
+        return {"dt": dt, "num": v.numerator, "den": v.denominator}
+
+    def coq_case(self, case):
+        vals = []
+        for dt, lex in case["vals"]:
+            f = p_exact(dt, lex)
+            vals.append(ctuple(cN(dt), ctuple(cZ(f.numerator), cZ(f.denominator))))
+        return "{| p_avg := %s; p_vals := %s |}" % (cbool(case["avg"]), clist(vals))
+
+    def coq_obs(self, obs):
+        if "err" in obs:
+            return "PErr"
+        return f"(PVal {cN(obs['dt'])} {ctuple(cZ(obs['num']), cZ(obs['den']))})"
+
+    def nontrivial(self, case, obs):
+        return len({dt for dt, _ in case["vals"]}) >= 2
+
+    def features(self, case, obs):
+        dts = [dt for dt, _ in case["vals"]]
+        f = {"avg": int(case["avg"]), "members": len(dts), "with_float": int(2 in dts), "with_double": int(3 in dts),
+             "decimal_before_float": int(any(a == 1 and 2 in dts[i + 1:] for i, a in enumerate(dts))),
+             "raised": int("err" in obs)}
+        return f
+
+    def shrink(self, case):
+        v = case["vals"]
+        for i in range(len(v)):
+            if len(v) > 1:
+                yield dict(case, vals=v[:i] + v[i + 1:])
+
+    def sweep(self):
+        """every ordered pair and triple of datatypes, SUM and AVG"""
+        import itertools
+        for avg in (False, True):
+            for n in (1, 2, 3):
+                for dts in itertools.product(range(4), repeat=n):
+                    yield {"avg": avg, "vals": [[dt, PVALUES[dt][1]] for dt in dts]}
+
+
+SUITES = [C08(), C08Promo()]
